@@ -5,6 +5,7 @@ emitted fuel bounds suffice).  Part 2: the C19 theorems about the hand model res
 An edit of the Python loop re-generates `Gen.f` and re-opens these proofs.  Overview: Props/C19Gen.lean.
 -/
 import IsoVerif.Props.C19Lists
+import IsoVerif.Props.C19Compose
 import IsoVerif.Lemmas.GenBinSearch
 
 namespace IsoVerif.Props.C19Gen
@@ -53,5 +54,21 @@ example : StrictInc ([((1 : Int), (5 : Int)), (10, 12), (20, 30), (40, 41), (50,
     Gen.interval_bin_search [(1, 5), (10, 12), (20, 30), (40, 41), (50, 60)] 11 = some 1 ∧
     Gen.interval_bin_search_rev [(1, 5), (10, 12), (20, 30), (40, 41), (50, 60)] 35 = some 3 := by
   refine ⟨by simp [StrictInc], by decide +kernel, by decide +kernel⟩
+
+/-- the composition the pipeline runs (`NonOverlappingFeaturesProfileConstructor` searches the split exons of the gene),
+    over the GENERATED loops: on the split exons of a non-empty, well-formed exon list both searches return an index for
+    EVERY position — no IndexError, no unnoticed negative index, the emitted fuel suffices -/
+theorem searches_total_on_split_exons (exons : List Iv) (hne : exons ≠ []) (w : WFl exons)
+    (hpos : ∀ e ∈ exons, 0 ≤ e.1) (pos : Int) :
+    ∃ blocks i j, splitExons exons = some blocks ∧ Gen.interval_bin_search blocks pos = some i ∧
+      Gen.interval_bin_search_rev blocks pos = some j := by
+  obtain ⟨blocks, i, hb, hi⟩ := C19Compose.bin_search_on_split_exons_total exons hne w hpos pos
+  obtain ⟨blocks', j, hb', hj⟩ := C19Compose.bin_search_rev_on_split_exons_total exons hne w hpos pos
+  rw [hb] at hb'; cases hb'
+  exact ⟨blocks, i, j, hb, by rw [interval_bin_search_refines]; exact hi, by rw [interval_bin_search_rev_refines]; exact hj⟩
+
+example : ([(100, 200), (150, 300), (400, 500)] : List Iv) ≠ [] ∧ WFl [(100, 200), (150, 300), (400, 500)] ∧
+    (∀ e ∈ ([(100, 200), (150, 300), (400, 500)] : List Iv), 0 ≤ e.1) := by
+  refine ⟨by decide, by decide, by decide⟩
 
 end IsoVerif.Props.C19Gen
